@@ -11,8 +11,15 @@ import os
 import sys
 
 pid = sys.argv[1]
-# optional second argument "w5": the wave-5 wording, which steers away from the patterns that dominated waves 1-4
 extra = ""
+# optional second argument "w6": the wave-6 wording (interactions, options, rarely taken paths)
+if len(sys.argv) > 2 and sys.argv[2] == "w6":
+    extra = ("Look in particular for: the interaction of two features or two options that are each fine alone; rarely used constructor / method options and "
+             "public helpers that the property's wording covers; code paths only reached by unusual but legal input structure (nesting, ordering, repetition, "
+             "emptiness, several languages, mixed units or notations); the seam between two modules (what one hands to the other); and conversions done in two steps "
+             "where a value is rounded, truncated, stripped or re-encoded once too often or once too rarely. Avoid the over-familiar patterns: state left on a reused "
+             "reader / writer object, a memo with a coarse key, a set() making an order hash-dependent, grouping by key instead of by run, `>` turned into `>=` on the 32-column limit. ")
+# optional second argument "w5": the wave-5 wording, which steers away from the patterns that dominated waves 1-4
 if len(sys.argv) > 2 and sys.argv[2] == "w5":
     extra = ("Do NOT use these over-familiar patterns unless the site is truly unusual: state left on a reader / writer object that is used twice; "
              "a memo / cache whose key is too coarse; a set() that makes an order depend on hashing; grouping by key instead of by run. "
